@@ -68,6 +68,8 @@ pub struct WorldInner {
     pub faults_fired: BTreeMap<String, u64>,
     /// invocations of the query entry point (not part of the trace)
     pub query_calls: u64,
+    /// set while the harness itself asks something through a recorder: no fault is injected then
+    pub plan_suspended: bool,
 }
 
 #[derive(Clone, Default)]
@@ -138,7 +140,7 @@ impl World {
             *c += 1;
             n
         };
-        let fail = w.fault_plan.contains(&(kind.to_string(), n));
+        let fail = !w.plan_suspended && w.fault_plan.contains(&(kind.to_string(), n));
         if fail {
             *w.faults_fired.entry(format!("module_reject:{}", kind)).or_insert(0) += 1;
         }
